@@ -7,6 +7,7 @@ from harness.common import run_check, expectation
 from checks.serverfam import *
 from checks.c03 import srv_expect
 from native import oracle
+from checks import hobl
 
 ALPHABET = [ord("'"), ord('\\'), ord(' '), ord(';'), ord('a'), ord('A'), ord('"')]
 DEFAULTS = {'client_encoding': 'UTF8', 'DateStyle': 'ISO, MDY', 'TimeZone': 'Etc/UTC', 'standard_conforming_strings': 'on', 'application_name': 'pgcat'}
@@ -372,6 +373,8 @@ def main(chk):
     tasks.append((o2_status, (prog, 'TimeZone', 0, True)))
     chk.parallel(_dispatch, tasks)
 
+    # whole sessions (Client::handle executed): before each statement of the client runs, the backend's tracked parameters are the client's
+    hobl.handle_obligations(chk, chk.program('on'), {'C12'}, ['params'])
 
 if __name__ == '__main__':
     run_check('C12', main)
